@@ -165,3 +165,5 @@ def check(ctx):
     ctx.order(C, Call(re.escape(MX) + "::lock", on=IN + ".count"), Agg(WG, "WaitGroup"), "wg/clone-counts-under-lock", "a clone is counted (under the lock) before it exists")
     condvar_relock_keeps_guard(ctx)
     mutex_cancel_arm_rules(ctx)
+    ctx.import_rules("C02", r"^(sync-blocker|blocker|fast-blocker|thread-park)/")
+    condvar_frontend_rules(ctx)
